@@ -664,6 +664,15 @@ func Forall(bound []*Term, body *Term, pats ...*Term) *Term {
 	if body.IsTrue() {
 		return True
 	}
+	// only array reads and function applications are legal patterns (a select over a store/ite chain
+	// may have been simplified into a boolean combination)
+	var ok []*Term
+	for _, p := range pats {
+		if p.Op == "select" || p.Op == "app" {
+			ok = append(ok, p)
+		}
+	}
+	pats = ok
 	return mkq("forall", "", BoolSort, nil, []*Term{body}, bound, pats)
 }
 func Exists(bound []*Term, body *Term) *Term {
@@ -819,12 +828,18 @@ func printTerm(sb *strings.Builder, t *Term, names map[*Term]string) {
 			fmt.Fprintf(sb, "(%s %s)", quoteName(b.Name), b.Sort)
 		}
 		sb.WriteString(") ")
-		if len(t.Pats) > 0 {
+		var legal []*Term
+		for _, p := range t.Pats {
+			if (p.Op == "select" || p.Op == "app") && patternClean(p, map[*Term]bool{}) {
+				legal = append(legal, p)
+			}
+		}
+		if len(legal) > 0 {
 			sb.WriteString("(! ")
 		}
 		printTerm(sb, t.Args[0], names)
-		if len(t.Pats) > 0 {
-			for _, p := range t.Pats {
+		if len(legal) > 0 {
+			for _, p := range legal {
 				sb.WriteString(" :pattern (")
 				printTerm(sb, p, names)
 				sb.WriteString(")")
@@ -1036,4 +1051,25 @@ func FreeSyms(t *Term, out map[string]bool, seen map[*Term]bool) {
 			delete(out, b.Name)
 		}
 	}
+}
+
+// patternClean: no boolean connective, ite or quantifier occurs inside a pattern term.
+func patternClean(t *Term, seen map[*Term]bool) bool {
+	if seen[t] {
+		return true
+	}
+	seen[t] = true
+	switch t.Op {
+	case "not", "and", "or", "=>", "ite", "=", "forall", "exists", "distinct":
+		return false
+	}
+	if t.Sort == BoolSort && t.Op != "select" && t.Op != "app" && t.Op != "var" && t.Op != "const" {
+		return false
+	}
+	for _, a := range t.Args {
+		if !patternClean(a, seen) {
+			return false
+		}
+	}
+	return true
 }
